@@ -590,7 +590,8 @@ def code_rules(chk, repo):
             if isinstance(s_, ast.FunctionDef):
                 reviewed.check(chk, 'R14.4', repo, rel,
                                '%s.%s' % (cname, s_.name),
-                               '%s.%s (group evaluation) is unchanged in '
-                               'normal form from its reviewed reference'
-                               % (cname, s_.name))
+                               '%s.%s (group evaluation) raises under the '
+                               'same conditions as its reviewed reference '
+                               '(values are C05\'s business)'
+                               % (cname, s_.name), mode='raises')
 
